@@ -23,6 +23,10 @@ pub type FxHashMap<K, V> = hashbrown::HashMap<K, V, FxBuildHasher>;
 /// Verification builds (`cargo kani`) only: association-list stand-in, see `kani_shim`.
 #[cfg(kani)]
 pub type FxHashMap<K, V> = super::kani_shim::VecMap<K, V>;
+/// Verification builds only: the real hash map, for the one recursive type (`TrieNode`) that
+/// cannot hold an inline association list of itself.
+#[cfg(kani)]
+pub type HeapFxHashMap<K, V> = hashbrown::HashMap<K, V, FxBuildHasher>;
 /// Verification builds only: hasher argument accepted and ignored by the shim constructors.
 #[cfg(kani)]
 #[derive(Default, Clone, Copy, Debug)]
